@@ -760,7 +760,7 @@ def run(ctx):
         "programs": ch.evals, "graph_shape_programs": nshapes, "random_programs": len(rnd), "corpus_scripts": ncorpus,
         "impl_vs_model_mismatches": ch.mism_m, "impl_vs_spec_mismatches": ch.mism_s,
         "main_only_name_cases": ch.flag_b, "reimport_of_failed_module_cases": ch.flag_r, "harness_cases_retried_after_crash": ch.retried,
-        "exhaustive": (not quick),
+        "graph_shapes_exhaustive": (not quick),
         "pending_findings": ch.pending, "known_classes_reproduced": ch.seen_classes,
         "reference_interpreter_compared": ch.ref_evals, "reference_interpreter_disagreements": ch.ref_diff,
         "reference_interpreter_eval_failed": ch.ref_failed,
